@@ -167,6 +167,7 @@ def generate(rng: random.Random, tier: str) -> dict:
         events.append({"op": "step", "g": g})
         prev = mask
     trace["events"] = events
+    trace["check_schedule_invariance"] = tier == "thorough" or rng.random() < 0.25
     return trace
 
 
@@ -270,6 +271,22 @@ def evaluate_sharded(trace: dict, sim, outs, prop: str, probes: Counter, kind: s
     return None
 
 
+def schedule_invariance(trace: dict, sim, outs, prop: str, probes: Counter) -> Violation | None:
+    """Same world, another seeded schedule: outcome and every rank's parameters after every step must be identical."""
+    w = trace["world"]
+    if not trace.get("check_schedule_invariance") or w["size"] < 2 or sim.outcome != "ok" or w["kind"] not in ("hsdp", "hybrid_shard"):
+        return None
+    sim2, outs2 = run_world(trace, trace["schedule_seed"] ^ 0x5A5A5A5, None)
+    probes["schedule_invariance_checked"] += 1
+    if sim2.outcome != sim.outcome:
+        return Violation(prop, "schedule_dependent_result", -1, {**c06.world_features(trace), "outcome_a": sim.outcome, "outcome_b": sim2.outcome})
+    for r in range(w["size"]):
+        for ei in outs[r].snaps:
+            if ei in outs2[r].snaps and worldrun.digest_params(outs[r].snaps[ei]) != worldrun.digest_params(outs2[r].snaps[ei]):
+                return Violation(prop, "schedule_dependent_result", ei, {**c06.world_features(trace), "rank": r})
+    return None
+
+
 def run_world(trace: dict, schedule_seed: int, schedule=None):
     w = trace["world"]
     outs = [worldrun.RankOut() for _ in range(w["size"])]
@@ -288,6 +305,7 @@ def execute(trace: dict) -> Outcome:
     if c06.ran_ahead(sim):
         probes["rank_runs_ahead_one_step"] += 1
     v = evaluate_sharded(trace, sim, outs, ID, probes, w["kind"])
+    v = v or schedule_invariance(trace, sim, outs, ID, probes)
     feats = c06.world_features(trace)
     empties = tuple(tuple(int(t.numel() == 0) for t in o.extra.get("initial", [])) for o in outs)
     return Outcome(
